@@ -561,7 +561,7 @@ func (c *EWCase) Run() string {
 		}
 		return ""
 	}
-	if dest != nil && !dest.b.Detached {
+	if dest != nil && !dest.b.Detached && !dest.b.CoversRoot() {
 		// the destination's parent frame: only the view's own elements may have changed
 		cur := readAll(dest.b.T)
 		if len(cur) == len(dest.b.Idx) {
